@@ -359,8 +359,10 @@ func (t *Terminfo) TParm(s string, p ...interface{}) string {
 			params[i] = rv.String() // (also for named string types)
 		case reflect.Int8, reflect.Int16, reflect.Int32, reflect.Int64, reflect.Int:
 			params[i] = int(rv.Int())
-		case reflect.Uint8, reflect.Uint16, reflect.Uint32, reflect.Uint64, reflect.Uint:
+		case reflect.Uint8, reflect.Uint16, reflect.Uint32, reflect.Uint64, reflect.Uint, reflect.Uintptr:
 			params[i] = int(rv.Uint())
+		case reflect.Bool:
+			params[i] = rv.Bool() // (also for named bool types)
 		}
 	}
 
